@@ -10,6 +10,7 @@ use std::collections::{BTreeMap, BTreeSet};
 
 pub const BOUNDS: [f64; 3] = [0.01, 0.0001, 0.00001];
 pub const ALPHA: f64 = 1e-9;
+const DELIVERY_NAMES: [&str; 3] = ["one batch", "one call per symbol", "K at once then one by one"];
 const MODE_NAMES: [&str; 4] = ["uniform", "loss10", "loss40", "loss90"];
 
 fn ln_gamma(x: f64) -> f64 {
@@ -109,6 +110,8 @@ pub struct Trial {
     pub mode: u8,
     pub esis: Vec<u32>,
     pub data_seed: u64,
+    /// 0: one decode() call with all K+h symbols; 1: one call per symbol; 2: K symbols at once, the rest one by one
+    pub delivery: u8,
 }
 
 pub fn gen_trial(seed: u64, h: u32, thorough: bool) -> Trial {
@@ -155,7 +158,12 @@ pub fn gen_trial(seed: u64, h: u32, thorough: bool) -> Trial {
     }
     let mut esis: Vec<u32> = set.into_iter().collect();
     r.shuffle(&mut esis);
-    Trial { k, h, mode, esis, data_seed: 0x0C03_0000 + k as u64 }
+    let delivery = match r.below(4) {
+        0 | 1 => 0,
+        2 => 1,
+        _ => 2,
+    };
+    Trial { k, h, mode, esis, data_seed: 0x0C03_0000 + k as u64, delivery }
 }
 
 type EncEntry = std::rc::Rc<(SourceBlockEncoder, Vec<EncodingPacket>, Vec<u8>)>;
@@ -198,7 +206,24 @@ pub fn run_trial(t: &Trial) -> Result<bool, String> {
             .map(|&e| if e < t.k { src[e as usize].clone() } else { enc.repair_packets(e - t.k, 1).swap_remove(0) })
             .collect();
         let mut dec = SourceBlockDecoder::new(0, &cfg, data.len() as u64);
-        dec.decode(packets)
+        match t.delivery {
+            0 => dec.decode(packets),
+            d => {
+                // the same K+h symbols reach the decoder in several calls (arrival order = the
+                // shuffled order of the set); the trial succeeds as soon as any call answers
+                let first = if d == 2 { (t.k as usize).min(packets.len()) } else { 1 };
+                let mut it = packets.into_iter();
+                let head: Vec<EncodingPacket> = it.by_ref().take(first).collect();
+                let mut r = dec.decode(head);
+                for p in it {
+                    if r.is_some() {
+                        break;
+                    }
+                    r = dec.decode(std::iter::once(p));
+                }
+                r
+            }
+        }
     });
     match r {
         Err(p) => Err(format!("panic:{}", panic_class(&p))),
@@ -219,6 +244,7 @@ struct Acc {
     x: [u64; 3],
     per_k: BTreeMap<u32, [u64; 6]>,
     per_mode: [[u64; 2]; 4],
+    per_delivery: [[u64; 2]; 3],
     states: HashSet64,
     samples: Vec<serde_json::Value>,
 }
@@ -255,7 +281,9 @@ pub fn run(ctx: &Ctx) -> i32 {
                     let e = acc.per_k.entry(t.k).or_insert([0; 6]);
                     e[2 * h as usize] += 1;
                     acc.per_mode[t.mode as usize][0] += 1;
+                    acc.per_delivery[t.delivery as usize][0] += 1;
                     if !ok {
+                        acc.per_delivery[t.delivery as usize][1] += 1;
                         acc.x[h as usize] += 1;
                         e[2 * h as usize + 1] += 1;
                         acc.per_mode[t.mode as usize][1] += 1;
@@ -289,6 +317,10 @@ pub fn run(ctx: &Ctx) -> i32 {
                 a.per_mode[m][0] += b.per_mode[m][0];
                 a.per_mode[m][1] += b.per_mode[m][1];
             }
+            for m in 0..3 {
+                a.per_delivery[m][0] += b.per_delivery[m][0];
+                a.per_delivery[m][1] += b.per_delivery[m][1];
+            }
             a.states.merge(b.states);
             a.samples.extend(b.samples);
         },
@@ -304,7 +336,7 @@ pub fn run(ctx: &Ctx) -> i32 {
             run,
             engine: "trial",
             observed: format!("decoding K={} from {} symbols: {what}", t.k, t.esis.len()),
-            scenario: json!({"kind": "trial", "k": t.k, "h": t.h, "mode": t.mode, "esis": t.esis, "data_seed": t.data_seed}),
+            scenario: json!({"kind": "trial", "k": t.k, "h": t.h, "mode": t.mode, "esis": t.esis, "data_seed": t.data_seed, "delivery": t.delivery}),
             minimised_from: None,
         });
     }
@@ -359,13 +391,14 @@ pub fn run(ctx: &Ctx) -> i32 {
             level: "exploration",
             evaluations: acc.n.iter().sum(),
             distinct_nontrivial: acc.states.len() as u64,
-            rule: "one evaluation = one decoding trial: a seeded set of exactly K+h distinct encoding symbols (uniform over all 2^24 ids, or a channel mixture of surviving source symbols topped up with uniformly drawn repair ids; never the trivial all-source set) handed to a fresh SourceBlockDecoder; failure = None. Decision: exact binomial test of the pooled failure count against the advertised bound at alpha = 1e-9. distinct_nontrivial = distinct (K, h, symbol set) trials".into(),
+            rule: "one evaluation = one decoding trial: a seeded set of exactly K+h distinct encoding symbols (uniform over all 2^24 ids, or a channel mixture of surviving source symbols topped up with uniformly drawn repair ids; never the trivial all-source set) handed to a fresh SourceBlockDecoder in one call, one call per symbol, or K at once and the rest one by one; failure = no call answered. Decision: exact binomial test of the pooled failure count against the advertised bound at alpha = 1e-9. distinct_nontrivial = distinct (K, h, symbol set) trials".into(),
             samples: acc.samples.clone(),
             extra: json!({
                 "per_overhead": stats,
                 "ratios": ratios,
                 "highest_failure_rate_block_sizes_h0": worst_k,
                 "per_mode": (0..4).map(|m| json!({"mode": MODE_NAMES[m], "trials": acc.per_mode[m][0], "failures": acc.per_mode[m][1]})).collect::<Vec<_>>(),
+                "per_delivery": (0..3).map(|m| json!({"delivery": DELIVERY_NAMES[m], "trials": acc.per_delivery[m][0], "failures": acc.per_delivery[m][1]})).collect::<Vec<_>>(),
                 "distinct_block_sizes": acc.per_k.len(),
                 "alpha": ALPHA,
                 "fault_kinds_fired": {"symbol_loss": "every trial (the erasure pattern is the fault sequence)"},
@@ -401,6 +434,7 @@ pub fn replay(ctx: &Ctx, doc: &serde_json::Value) -> i32 {
             mode: sc["mode"].as_u64().unwrap_or(0) as u8,
             esis: sc["esis"].as_array().map(|a| a.iter().filter_map(|x| x.as_u64()).map(|x| x as u32).collect()).unwrap_or_default(),
             data_seed: sc["data_seed"].as_u64().unwrap_or(0),
+            delivery: sc["delivery"].as_u64().unwrap_or(0) as u8,
         };
         match run_trial(&t) {
             Ok(_) => {
